@@ -6,8 +6,10 @@
 @struct packages/cw20/src/coin.rs Cw20Coin
 @struct packages/cw20/src/query.rs AllowanceResponse [default: AllowanceResponse { allowance: Uint128(0), expires: Expiration::Never {} }]
 @struct packages/cw20/src/query.rs MinterResponse
+@struct packages/cw20/src/query.rs BalanceResponse
+@struct packages/cw20/src/query.rs TokenInfoResponse
 @struct packages/cw20/src/receiver.rs Cw20ReceiveMsg
-@enum packages/cw20/src/receiver.rs ReceiverExecuteMsg
+@enum packages/cw20/src/receiver.rs ReceiverExecuteMsg [pub]
 @enum contracts/cw20-base/src/error.rs ContractError
 @struct contracts/cw20-base/src/state.rs TokenInfo
 @struct contracts/cw20-base/src/state.rs MinterData
@@ -42,7 +44,7 @@ pub open spec fn cap_of(t: TokenInfo) -> Option<Uint128> {
 pub open spec fn inv_cap(s: Raw) -> bool {
     tinfo(s) is Some ==> (cap_of(tinfo(s)->Some_0) is Some ==> supply(s) <= cap_of(tinfo(s)->Some_0)->Some_0@)
 }
-pub open spec fn inv(s: Raw) -> bool { inv_supply(s) && inv_cap(s) }
+pub open spec fn inv(s: Raw) -> bool { inv_supply(s) && inv_cap(s) && inv_mirror(s) }
 
 pub open spec fn debit(s: Raw, a: Seq<char>, amt: nat) -> Raw {
     s.insert(bkey(a), u128_ser((bal(s, a) - amt) as u128))
@@ -68,6 +70,55 @@ pub open spec fn step_mint(s: Raw, t: Raw, sender: Seq<char>, to: Seq<char>, amt
     && t == credit(set_supply(s, supply(s) + amt), to, amt)
 }
 
+// --------------------------------------------------------------------- allowances (C02, C19)
+pub open spec fn akey(o: Seq<char>, sp: Seq<char>) -> Seq<u8> { path("allowance"@, pair_kb(utf8(o), utf8(sp))) }
+pub open spec fn skey(sp: Seq<char>, o: Seq<char>) -> Seq<u8> { path("allowance_spender"@, pair_kb(utf8(sp), utf8(o))) }
+pub open spec fn allow(s: Raw, o: Seq<char>, sp: Seq<char>) -> Option<AllowanceResponse> { raw_get::<AllowanceResponse>(s, akey(o, sp)) }
+pub open spec fn allow_s(s: Raw, sp: Seq<char>, o: Seq<char>) -> Option<AllowanceResponse> { raw_get::<AllowanceResponse>(s, skey(sp, o)) }
+pub open spec fn raw_opt(s: Raw, k: Seq<u8>) -> Option<Seq<u8>> { if s.contains_key(k) { Some(s[k]) } else { None } }
+/// C19 invariant: the owner-indexed and the spender-indexed allowance tables hold the same (decoded) entry for every pair
+pub open spec fn inv_mirror(s: Raw) -> bool {
+    forall|o: Seq<char>, sp: Seq<char>| #![trigger akey(o, sp)] #![trigger skey(sp, o)] allow(s, o, sp) == allow_s(s, sp, o)
+}
+pub open spec fn set_allow(s: Raw, o: Seq<char>, sp: Seq<char>, a: AllowanceResponse) -> Raw {
+    s.insert(akey(o, sp), a.ser()).insert(skey(sp, o), a.ser())
+}
+pub open spec fn del_allow(s: Raw, o: Seq<char>, sp: Seq<char>) -> Raw {
+    s.remove(akey(o, sp)).remove(skey(sp, o))
+}
+pub open spec fn allow_or_default(s: Raw, o: Seq<char>, sp: Seq<char>) -> AllowanceResponse {
+    match allow(s, o, sp) { Some(a) => a, None => AllowanceResponse { allowance: Uint128(0), expires: Expiration::Never {} } }
+}
+pub open spec fn step_increase(s: Raw, t: Raw, owner: Seq<char>, sp: Seq<char>, amt: nat, expires: Option<Expiration>, b: &BlockInfo) -> bool {
+    owner != sp
+    && (expires is Some ==> !expires->Some_0.expired(b))
+    && allow_or_default(s, owner, sp).allowance@ + amt <= u128::MAX
+    && t == set_allow(s, owner, sp, AllowanceResponse {
+        allowance: Uint128((allow_or_default(s, owner, sp).allowance@ + amt) as u128),
+        expires: match expires { Some(e) => e, None => allow_or_default(s, owner, sp).expires } })
+}
+pub open spec fn step_decrease(s: Raw, t: Raw, owner: Seq<char>, sp: Seq<char>, amt: nat, expires: Option<Expiration>, b: &BlockInfo) -> bool {
+    owner != sp && allow(s, owner, sp) is Some
+    && (if amt < allow(s, owner, sp)->Some_0.allowance@ {
+        (expires is Some ==> !expires->Some_0.expired(b))
+        && t == set_allow(s, owner, sp, AllowanceResponse {
+            allowance: Uint128((allow(s, owner, sp)->Some_0.allowance@ - amt) as u128),
+            expires: match expires { Some(e) => e, None => allow(s, owner, sp)->Some_0.expires } })
+    } else {
+        t == del_allow(s, owner, sp)
+    })
+}
+/// a draw of `amt` by `sp` on `owner`'s allowance
+pub open spec fn step_deduct(s: Raw, t: Raw, owner: Seq<char>, sp: Seq<char>, amt: nat, b: &BlockInfo) -> bool {
+    allow(s, owner, sp) is Some
+    && !allow(s, owner, sp)->Some_0.expires.expired(b)
+    && allow(s, owner, sp)->Some_0.allowance@ >= amt
+    && t == set_allow(s, owner, sp, AllowanceResponse {
+        allowance: Uint128((allow(s, owner, sp)->Some_0.allowance@ - amt) as u128),
+        expires: allow(s, owner, sp)->Some_0.expires })
+}
+
+
 pub broadcast group cw20_axioms { ax_path, ax_utf8, ax_u128_ser, ax_ser, ax_pair_kb, lemma_sum_insert, lemma_sum_remove_b, addr_ext }
 
 pub proof fn lemma_ns()
@@ -83,13 +134,27 @@ pub proof fn lemma_ns()
     assert("allowance_spender"@.len() == 17); assert("marketing_info"@.len() == 14); assert("logo"@.len() == 4);
     assert("contract_info"@.len() == 13);
 }
+/// writes outside the two allowance namespaces preserve the mirror invariant
+pub proof fn lemma_mirror_frame(s: Raw, k: Seq<u8>, v: Seq<u8>)
+    requires inv_mirror(s), unpath(k).0 != "allowance"@, unpath(k).0 != "allowance_spender"@
+    ensures inv_mirror(s.insert(k, v)), inv_mirror(s.remove(k))
+{
+    broadcast use cw20_axioms;
+    assert forall|o: Seq<char>, sp: Seq<char>| allow(s.insert(k, v), o, sp) == allow_s(s.insert(k, v), sp, o)
+        && allow(s.remove(k), o, sp) == allow_s(s.remove(k), sp, o) by {
+        assert(allow(s, o, sp) == allow_s(s, sp, o));
+        assert(unpath(akey(o, sp)).0 == "allowance"@ && unpath(skey(sp, o)).0 == "allowance_spender"@);
+    }
+}
 pub proof fn lemma_debit(s: Raw, a: Seq<char>, amt: nat)
     ensures bal(s, a) >= amt ==> total_bal(debit(s, a, amt)) == total_bal(s) - amt,
         bal(s, a) >= amt ==> bal(debit(s, a, amt), a) == bal(s, a) - amt,
         forall|x: Seq<char>| x != a ==> bal(debit(s, a, amt), x) == bal(s, x),
         tinfo(debit(s, a, amt)) == tinfo(s),
+        inv_mirror(s) ==> inv_mirror(debit(s, a, amt)),
 {
     broadcast use cw20_axioms;
+    if inv_mirror(s) { lemma_ns(); lemma_mirror_frame(s, bkey(a), u128_ser((bal(s, a) - amt) as u128)); }
     lemma_sum_ge_one_opt(s, a);
     assert forall|x: Seq<char>| x != a implies bal(debit(s, a, amt), x) == bal(s, x) by {
         assert(unpath(bkey(x)) != unpath(bkey(a)));
@@ -108,8 +173,10 @@ pub proof fn lemma_credit(s: Raw, a: Seq<char>, amt: nat)
         bal(s, a) + amt <= u128::MAX ==> bal(credit(s, a, amt), a) == bal(s, a) + amt,
         forall|x: Seq<char>| x != a ==> bal(credit(s, a, amt), x) == bal(s, x),
         tinfo(credit(s, a, amt)) == tinfo(s),
+        inv_mirror(s) ==> inv_mirror(credit(s, a, amt)),
 {
     broadcast use cw20_axioms;
+    if inv_mirror(s) { lemma_ns(); lemma_mirror_frame(s, bkey(a), u128_ser((bal(s, a) + amt) as u128)); }
     assert forall|x: Seq<char>| x != a implies bal(credit(s, a, amt), x) == bal(s, x) by {
         assert(unpath(bkey(x)) != unpath(bkey(a)));
     }
@@ -120,13 +187,28 @@ pub proof fn lemma_set_supply(s: Raw, v: nat)
     ensures total_bal(set_supply(s, v)) == total_bal(s),
         forall|x: Seq<char>| bal(set_supply(s, v), x) == bal(s, x),
         v <= u128::MAX ==> tinfo(set_supply(s, v)) == Some(TokenInfo { total_supply: Uint128(v as u128), ..tinfo(s)->Some_0 }),
+        inv_mirror(s) ==> inv_mirror(set_supply(s, v)),
 {
     broadcast use cw20_axioms;
+    if inv_mirror(s) { lemma_ns(); lemma_mirror_frame(s, ti_key(), (TokenInfo { total_supply: Uint128(v as u128), ..tinfo(s)->Some_0 }).ser()); }
     lemma_ns();
     assert forall|x: Seq<char>| bal(set_supply(s, v), x) == bal(s, x) by {
         assert(unpath(ti_key()) != unpath(bkey(x)));
     }
     assert(unpath(ti_key()).0 != "balance"@);
+}
+
+/// writes outside the "balance" namespace leave every balance and their sum unchanged
+pub proof fn lemma_other_ns(s: Raw, k: Seq<u8>, v: Seq<u8>)
+    requires unpath(k).0 != "balance"@
+    ensures total_bal(s.insert(k, v)) == total_bal(s), total_bal(s.remove(k)) == total_bal(s),
+        forall|x: Seq<char>| bal(s.insert(k, v), x) == bal(s, x),
+        forall|x: Seq<char>| bal(s.remove(k), x) == bal(s, x),
+{
+    broadcast use cw20_axioms;
+    assert forall|x: Seq<char>| bal(s.insert(k, v), x) == bal(s, x) && bal(s.remove(k), x) == bal(s, x) by {
+        assert(unpath(bkey(x)).0 == "balance"@);
+    }
 }
 
 // ===================================================================== functions under contract
@@ -158,5 +240,430 @@ pub proof fn lemma_set_supply(s: Raw, v: nat)
     proof {
         lemma_debit(old(deps.storage).view(), info.sender@, amount@);
         lemma_credit(debit(old(deps.storage).view(), info.sender@, amount@), recipient@, amount@);
+    }
+@end
+
+@fn contracts/cw20-base/src/contract.rs execute_burn [closures: 2]
+@requires
+    inv(old(deps.storage).view())
+@ensures C01.burn_exact C02
+    r is Ok ==> step_burn(old(deps.storage).view(), final(deps.storage).view(), info.sender@, amount@)
+@ensures C01.burn_inv C13
+    r is Ok ==> inv(final(deps.storage).view())
+@ensures C02.burn_nomsg
+    r is Ok ==> r->Ok_0.messages@.len() == 0
+@closure 1 C02.burn_debit
+    (res: StdResult<Uint128>)
+    ensures res is Ok ==> balance.unwrap_or(Uint128(0)).0 >= amount.0 && res->Ok_0.0 == balance.unwrap_or(Uint128(0)).0 - amount.0
+@closure 2 C01.burn_supply
+    (res: StdResult<TokenInfo>)
+    ensures res is Ok ==> info.total_supply.0 >= amount.0 && res->Ok_0 == (TokenInfo { total_supply: Uint128((info.total_supply.0 - amount.0) as u128), ..info })
+@prefix
+    broadcast use cw20_axioms;
+    proof {
+        lemma_debit(old(deps.storage).view(), info.sender@, amount@);
+        lemma_set_supply(debit(old(deps.storage).view(), info.sender@, amount@), (supply(old(deps.storage).view()) - amount@) as nat);
+    }
+@end
+
+@fn contracts/cw20-base/src/contract.rs execute_mint [closures: 1]
+@requires
+    inv(old(deps.storage).view())
+@ensures C01.mint_exact C13
+    r is Ok ==> step_mint(old(deps.storage).view(), final(deps.storage).view(), info.sender@, recipient@, amount@)
+@ensures C01.mint_inv C13
+    r is Ok ==> inv(final(deps.storage).view())
+@ensures C02.mint_nomsg
+    r is Ok ==> r->Ok_0.messages@.len() == 0
+@closure 1 C01.mint_credit
+    (res: StdResult<Uint128>)
+    ensures res is Ok ==> balance.unwrap_or(Uint128(0)).0 + amount.0 <= u128::MAX && res->Ok_0.0 == balance.unwrap_or(Uint128(0)).0 + amount.0
+@prefix
+    broadcast use cw20_axioms;
+    proof {
+        lemma_set_supply(old(deps.storage).view(), supply(old(deps.storage).view()) + amount@);
+        lemma_credit(set_supply(old(deps.storage).view(), supply(old(deps.storage).view()) + amount@), recipient@, amount@);
+    }
+@end
+
+// --------------------------------------------------------------------- receiver notification (C02)
+/// "this message is exactly one cw20 Receive notification"
+pub open spec fn is_receive_msg(m: SubMsg<Empty>, contract: Seq<char>, sender: Seq<char>, amount: Uint128, payload: Binary) -> bool {
+    m.id == 0 && m.gas_limit is None && m.reply_on is Never
+    && m.msg is Wasm && m.msg->Wasm_0 is Execute
+    && m.msg->Wasm_0->Execute_contract_addr@ == contract
+    && m.msg->Wasm_0->Execute_funds@.len() == 0
+    && exists|r: Cw20ReceiveMsg| #![auto] m.msg->Wasm_0->Execute_msg@ == ReceiverExecuteMsg::Receive(r).json()
+        && r.sender@ == sender && r.amount == amount && r.msg == payload
+}
+
+@method packages/cw20/src/receiver.rs Cw20ReceiveMsg into_json_binary
+@ensures C02.receive_payload
+    r is Ok && r->Ok_0@ == ReceiverExecuteMsg::Receive(self).json()
+@end
+
+@method packages/cw20/src/receiver.rs Cw20ReceiveMsg into_cosmos_msg
+@requires
+    <T as IntoSpec<String>>::obeys_into_spec()
+@ensures C02.receive_wasm
+    r is Ok && is_receive_msg(SubMsg::<Empty>::new_spec(r->Ok_0), into_string_spec(contract_addr)@, self.sender@, self.amount, self.msg)
+@end
+
+@fn contracts/cw20-base/src/contract.rs execute_send [closures: 2]
+@requires
+    inv(old(deps.storage).view())
+@ensures C02.send_exact C01
+    r is Ok ==> step_transfer(old(deps.storage).view(), final(deps.storage).view(), info.sender@, contract@, amount@)
+@ensures C01.send_inv C13
+    r is Ok ==> inv(final(deps.storage).view())
+@ensures C02.send_notifies_once
+    r is Ok ==> r->Ok_0.messages@.len() == 1 && is_receive_msg(r->Ok_0.messages@[0], contract@, info.sender@, amount, msg)
+@closure 1 C02.send_debit
+    (res: StdResult<Uint128>)
+    ensures res is Ok ==> balance.unwrap_or(Uint128(0)).0 >= amount.0 && res->Ok_0.0 == balance.unwrap_or(Uint128(0)).0 - amount.0
+@closure 2 C02.send_credit
+    (res: StdResult<Uint128>)
+    ensures res is Ok ==> balance.unwrap_or(Uint128(0)).0 + amount.0 <= u128::MAX && res->Ok_0.0 == balance.unwrap_or(Uint128(0)).0 + amount.0
+@prefix
+    broadcast use cw20_axioms, string_conv, msg_conv;
+    proof {
+        lemma_debit(old(deps.storage).view(), info.sender@, amount@);
+        lemma_credit(debit(old(deps.storage).view(), info.sender@, amount@), contract@, amount@);
+    }
+@end
+
+// --------------------------------------------------------------------- minter role (C13)
+pub open spec fn step_update_minter(s: Raw, t: Raw, sender: Seq<char>, new_minter: Option<String>) -> bool {
+    tinfo(s) is Some && tinfo(s)->Some_0.mint is Some && tinfo(s)->Some_0.mint->Some_0.minter@ == sender
+    && tinfo(t) is Some
+    && t == s.insert(ti_key(), tinfo(t)->Some_0.ser())
+    && tinfo(t)->Some_0.total_supply == tinfo(s)->Some_0.total_supply
+    && tinfo(t)->Some_0.name == tinfo(s)->Some_0.name && tinfo(t)->Some_0.symbol == tinfo(s)->Some_0.symbol
+    && tinfo(t)->Some_0.decimals == tinfo(s)->Some_0.decimals
+    && match new_minter {
+        None => tinfo(t)->Some_0.mint is None,
+        Some(m) => tinfo(t)->Some_0.mint is Some && tinfo(t)->Some_0.mint->Some_0.minter@ == m@
+                   && tinfo(t)->Some_0.mint->Some_0.cap == tinfo(s)->Some_0.mint->Some_0.cap,
+    }
+}
+
+@fn contracts/cw20-base/src/contract.rs execute_update_minter
+@requires
+    inv(old(deps.storage).view())
+@ensures C13.update_minter_exact
+    r is Ok ==> step_update_minter(old(deps.storage).view(), final(deps.storage).view(), info.sender@, new_minter)
+@ensures C13.update_minter_inv C01
+    r is Ok ==> inv(final(deps.storage).view())
+@closure 1 C13.update_minter_validate
+    (res: StdResult<Addr>)
+    ensures res is Ok ==> res->Ok_0@ == new_minter@
+@closure 2 C13.update_minter_keeps_cap
+    (res: MinterData)
+    ensures res == (MinterData { minter, cap: mint.cap })
+@prefix
+    broadcast use cw20_axioms, string_conv;
+    proof { lemma_ns(); }
+@insert_before "TOKEN_INFO.save(" 1
+    proof { lemma_other_ns(deps.storage.view(), ti_key(), config.ser()); lemma_mirror_frame(deps.storage.view(), ti_key(), config.ser()); }
+@end
+
+pub open spec fn after_deduct(s: Raw, owner: Seq<char>, sp: Seq<char>, amt: nat) -> Raw {
+    set_allow(s, owner, sp, AllowanceResponse {
+        allowance: Uint128((allow(s, owner, sp)->Some_0.allowance@ - amt) as u128),
+        expires: allow(s, owner, sp)->Some_0.expires })
+}
+pub proof fn lemma_set_allow(s: Raw, o: Seq<char>, sp: Seq<char>, a: AllowanceResponse)
+    requires inv_mirror(s)
+    ensures inv_mirror(set_allow(s, o, sp, a)), inv_mirror(del_allow(s, o, sp)),
+        total_bal(set_allow(s, o, sp, a)) == total_bal(s), total_bal(del_allow(s, o, sp)) == total_bal(s),
+        forall|x: Seq<char>| bal(set_allow(s, o, sp, a), x) == bal(s, x) && bal(del_allow(s, o, sp), x) == bal(s, x),
+        tinfo(set_allow(s, o, sp, a)) == tinfo(s), tinfo(del_allow(s, o, sp)) == tinfo(s),
+        allow(set_allow(s, o, sp, a), o, sp) == Some(a), allow_s(set_allow(s, o, sp, a), sp, o) == Some(a),
+        allow(del_allow(s, o, sp), o, sp) is None, allow_s(del_allow(s, o, sp), sp, o) is None,
+{
+    broadcast use cw20_axioms;
+    lemma_ns();
+    let t = set_allow(s, o, sp, a);
+    let d = del_allow(s, o, sp);
+    lemma_other_ns(s, akey(o, sp), a.ser());
+    lemma_other_ns(s.insert(akey(o, sp), a.ser()), skey(sp, o), a.ser());
+    lemma_other_ns(s, akey(o, sp), a.ser());
+    lemma_other_ns(s.remove(akey(o, sp)), skey(sp, o), a.ser());
+    assert forall|o2: Seq<char>, sp2: Seq<char>| allow(t, o2, sp2) == allow_s(t, sp2, o2) && allow(d, o2, sp2) == allow_s(d, sp2, o2) by {
+        assert(allow(s, o2, sp2) == allow_s(s, sp2, o2));
+        assert(unpath(akey(o2, sp2)) != unpath(skey(sp, o)));
+        assert(unpath(skey(sp2, o2)) != unpath(akey(o, sp)));
+        if o2 == o && sp2 == sp { } else {
+            assert(unpair_kb(pair_kb(utf8(o2), utf8(sp2))) != unpair_kb(pair_kb(utf8(o), utf8(sp)))) by {
+                assert(unutf8(utf8(o2)) == o2 && unutf8(utf8(o)) == o && unutf8(utf8(sp2)) == sp2 && unutf8(utf8(sp)) == sp);
+            }
+            assert(unpair_kb(pair_kb(utf8(sp2), utf8(o2))) != unpair_kb(pair_kb(utf8(sp), utf8(o)))) by {
+                assert(unutf8(utf8(o2)) == o2 && unutf8(utf8(o)) == o && unutf8(utf8(sp2)) == sp2 && unutf8(utf8(sp)) == sp);
+            }
+            assert(unpath(akey(o2, sp2)) != unpath(akey(o, sp)));
+            assert(unpath(skey(sp2, o2)) != unpath(skey(sp, o)));
+        }
+    }
+    assert(unpath(ti_key()) != unpath(akey(o, sp)) && unpath(ti_key()) != unpath(skey(sp, o)));
+    assert(unpath(akey(o, sp)) != unpath(skey(sp, o)));
+}
+
+@fn contracts/cw20-base/src/allowances.rs deduct_allowance [closures: 1]
+@requires
+    inv_mirror(old(storage).view())
+@ensures C02.deduct_exact C19
+    r is Ok ==> step_deduct(old(storage).view(), final(storage).view(), owner@, spender@, amount@, block)
+@ensures C19.deduct_mirror
+    r is Ok ==> inv_mirror(final(storage).view())
+@closure 1 C02.deduct_closure
+    (res: Result<AllowanceResponse, ContractError>)
+    ensures res is Ok ==> current is Some && !current->Some_0.expires.expired(block) && current->Some_0.allowance.0 >= amount.0
+        && res->Ok_0 == (AllowanceResponse { allowance: Uint128((current->Some_0.allowance.0 - amount.0) as u128), expires: current->Some_0.expires })
+@prefix
+    broadcast use cw20_axioms;
+    proof {
+        if allow(old(storage).view(), owner@, spender@) is Some {
+            lemma_set_allow(old(storage).view(), owner@, spender@, allow(old(storage).view(), owner@, spender@)->Some_0);
+        }
+    }
+@insert_before "ALLOWANCES_SPENDER.update(" 1
+    proof {
+        lemma_ns();
+        assert(allow(old(storage).view(), owner@, spender@) == allow_s(old(storage).view(), spender@, owner@));
+        assert(unpath(akey(owner@, spender@)) != unpath(skey(spender@, owner@)));
+    }
+@end
+
+@fn contracts/cw20-base/src/allowances.rs execute_increase_allowance [closures: 1]
+@requires
+    inv(old(deps.storage).view())
+@ensures C02.increase_exact C19
+    r is Ok ==> step_increase(old(deps.storage).view(), final(deps.storage).view(), info.sender@, spender@, amount@, expires, &env.block)
+@ensures C19.increase_inv C01 C13
+    r is Ok ==> inv(final(deps.storage).view())
+@ensures C02.increase_nomsg
+    r is Ok ==> r->Ok_0.messages@.len() == 0
+@closure 1 C02.increase_closure
+    (res: Result<AllowanceResponse, ContractError>)
+    ensures res is Ok ==> (expires is Some ==> !expires->Some_0.expired(&env.block))
+        && allow.unwrap_or(AllowanceResponse { allowance: Uint128(0), expires: Expiration::Never {} }).allowance.0 + amount.0 <= u128::MAX
+        && res->Ok_0 == (AllowanceResponse {
+            allowance: Uint128((allow.unwrap_or(AllowanceResponse { allowance: Uint128(0), expires: Expiration::Never {} }).allowance.0 + amount.0) as u128),
+            expires: match expires { Some(e) => e, None => allow.unwrap_or(AllowanceResponse { allowance: Uint128(0), expires: Expiration::Never {} }).expires } })
+@prefix
+    broadcast use cw20_axioms;
+    proof {
+        lemma_set_allow(old(deps.storage).view(), info.sender@, spender@, AllowanceResponse {
+            allowance: Uint128((allow_or_default(old(deps.storage).view(), info.sender@, spender@).allowance@ + amount@) as u128),
+            expires: match expires { Some(e) => e, None => allow_or_default(old(deps.storage).view(), info.sender@, spender@).expires } });
+    }
+@insert_before "ALLOWANCES_SPENDER.update(" 1
+    proof {
+        lemma_ns();
+        assert(allow(old(deps.storage).view(), info.sender@, spender@) == allow_s(old(deps.storage).view(), spender@, info.sender@));
+        assert(unpath(akey(info.sender@, spender@)) != unpath(skey(spender@, info.sender@)));
+    }
+@end
+
+@fn contracts/cw20-base/src/allowances.rs execute_decrease_allowance
+@requires
+    inv(old(deps.storage).view())
+@ensures C02.decrease_exact C19
+    r is Ok ==> step_decrease(old(deps.storage).view(), final(deps.storage).view(), info.sender@, spender@, amount@, expires, &env.block)
+@ensures C19.decrease_inv C01 C13
+    r is Ok ==> inv(final(deps.storage).view())
+@ensures C02.decrease_nomsg
+    r is Ok ==> r->Ok_0.messages@.len() == 0
+@nested reverse C19.decrease_reverse
+    (r)
+    ensures r.0 == t.1, r.1 == t.0
+@prefix
+    broadcast use cw20_axioms;
+    proof {
+        if allow(old(deps.storage).view(), info.sender@, spender@) is Some {
+            lemma_set_allow(old(deps.storage).view(), info.sender@, spender@, AllowanceResponse {
+                allowance: Uint128((allow(old(deps.storage).view(), info.sender@, spender@)->Some_0.allowance@ - amount@) as u128),
+                expires: match expires { Some(e) => e, None => allow(old(deps.storage).view(), info.sender@, spender@)->Some_0.expires } });
+        }
+    }
+@end
+
+@fn contracts/cw20-base/src/allowances.rs execute_transfer_from [closures: 2]
+@requires
+    inv(old(deps.storage).view())
+@ensures C02.transfer_from_exact C01 C19
+    r is Ok ==> step_deduct(old(deps.storage).view(), after_deduct(old(deps.storage).view(), owner@, info.sender@, amount@), owner@, info.sender@, amount@, &env.block)
+        && step_transfer(after_deduct(old(deps.storage).view(), owner@, info.sender@, amount@), final(deps.storage).view(), owner@, recipient@, amount@)
+@ensures C01.transfer_from_inv C13 C19
+    r is Ok ==> inv(final(deps.storage).view())
+@ensures C02.transfer_from_nomsg
+    r is Ok ==> r->Ok_0.messages@.len() == 0
+@closure 1 C02.transfer_from_debit
+    (res: StdResult<Uint128>)
+    ensures res is Ok ==> balance.unwrap_or(Uint128(0)).0 >= amount.0 && res->Ok_0.0 == balance.unwrap_or(Uint128(0)).0 - amount.0
+@closure 2 C02.transfer_from_credit
+    (res: StdResult<Uint128>)
+    ensures res is Ok ==> balance.unwrap_or(Uint128(0)).0 + amount.0 <= u128::MAX && res->Ok_0.0 == balance.unwrap_or(Uint128(0)).0 + amount.0
+@prefix
+    broadcast use cw20_axioms;
+@insert_before "BALANCES.update(" 1
+    proof {
+        let m = deps.storage.view();
+        lemma_set_allow(old(deps.storage).view(), owner@, info.sender@, allow(m, owner@, info.sender@)->Some_0);
+        lemma_debit(m, owner@, amount@);
+        lemma_credit(debit(m, owner@, amount@), recipient@, amount@);
+    }
+@end
+
+@fn contracts/cw20-base/src/allowances.rs execute_burn_from [closures: 2]
+@requires
+    inv(old(deps.storage).view())
+@ensures C02.burn_from_exact C01 C19
+    r is Ok ==> step_deduct(old(deps.storage).view(), after_deduct(old(deps.storage).view(), owner@, info.sender@, amount@), owner@, info.sender@, amount@, &env.block)
+        && step_burn(after_deduct(old(deps.storage).view(), owner@, info.sender@, amount@), final(deps.storage).view(), owner@, amount@)
+@ensures C01.burn_from_inv C13 C19
+    r is Ok ==> inv(final(deps.storage).view())
+@ensures C02.burn_from_nomsg
+    r is Ok ==> r->Ok_0.messages@.len() == 0
+@closure 1 C02.burn_from_debit
+    (res: StdResult<Uint128>)
+    ensures res is Ok ==> balance.unwrap_or(Uint128(0)).0 >= amount.0 && res->Ok_0.0 == balance.unwrap_or(Uint128(0)).0 - amount.0
+@closure 2 C01.burn_from_supply
+    (res: StdResult<TokenInfo>)
+    ensures res is Ok ==> meta.total_supply.0 >= amount.0 && res->Ok_0 == (TokenInfo { total_supply: Uint128((meta.total_supply.0 - amount.0) as u128), ..meta })
+@prefix
+    broadcast use cw20_axioms;
+@insert_before "BALANCES.update(" 1
+    proof {
+        let m = deps.storage.view();
+        lemma_set_allow(old(deps.storage).view(), owner@, info.sender@, allow(m, owner@, info.sender@)->Some_0);
+        lemma_debit(m, owner@, amount@);
+        lemma_set_supply(debit(m, owner@, amount@), (supply(m) - amount@) as nat);
+    }
+@end
+
+@fn contracts/cw20-base/src/allowances.rs execute_send_from [closures: 2]
+@requires
+    inv(old(deps.storage).view())
+@ensures C02.send_from_exact C01 C19
+    r is Ok ==> step_deduct(old(deps.storage).view(), after_deduct(old(deps.storage).view(), owner@, info.sender@, amount@), owner@, info.sender@, amount@, &env.block)
+        && step_transfer(after_deduct(old(deps.storage).view(), owner@, info.sender@, amount@), final(deps.storage).view(), owner@, contract@, amount@)
+@ensures C01.send_from_inv C13 C19
+    r is Ok ==> inv(final(deps.storage).view())
+@ensures C02.send_from_notifies_once
+    r is Ok ==> r->Ok_0.messages@.len() == 1 && is_receive_msg(r->Ok_0.messages@[0], contract@, info.sender@, amount, msg)
+@closure 1 C02.send_from_debit
+    (res: StdResult<Uint128>)
+    ensures res is Ok ==> balance.unwrap_or(Uint128(0)).0 >= amount.0 && res->Ok_0.0 == balance.unwrap_or(Uint128(0)).0 - amount.0
+@closure 2 C02.send_from_credit
+    (res: StdResult<Uint128>)
+    ensures res is Ok ==> balance.unwrap_or(Uint128(0)).0 + amount.0 <= u128::MAX && res->Ok_0.0 == balance.unwrap_or(Uint128(0)).0 + amount.0
+@prefix
+    broadcast use cw20_axioms, string_conv, msg_conv;
+@insert_before "BALANCES.update(" 1
+    proof {
+        let m = deps.storage.view();
+        lemma_set_allow(old(deps.storage).view(), owner@, info.sender@, allow(m, owner@, info.sender@)->Some_0);
+        lemma_debit(m, owner@, amount@);
+        lemma_credit(debit(m, owner@, amount@), contract@, amount@);
+    }
+@end
+
+@fn contracts/cw20-base/src/allowances.rs query_allowance
+@ensures C19.query_allowance
+    r is Ok ==> r->Ok_0 == allow_or_default(deps.storage.view(), owner@, spender@)
+@end
+
+@fn contracts/cw20-base/src/contract.rs query_balance
+@ensures C01.query_balance
+    r is Ok ==> r->Ok_0.balance@ == bal(deps.storage.view(), address@)
+@prefix
+    broadcast use cw20_axioms;
+@end
+
+@fn contracts/cw20-base/src/contract.rs query_token_info
+@ensures C01.query_token_info
+    r is Ok ==> tinfo(deps.storage.view()) is Some && r->Ok_0.total_supply@ == supply(deps.storage.view())
+@end
+
+@fn contracts/cw20-base/src/contract.rs query_minter
+@ensures C13.query_minter
+    r is Ok ==> tinfo(deps.storage.view()) is Some
+        && (r->Ok_0 is Some <==> tinfo(deps.storage.view())->Some_0.mint is Some)
+        && (r->Ok_0 is Some ==> r->Ok_0->Some_0.minter@ == tinfo(deps.storage.view())->Some_0.mint->Some_0.minter@
+                              && r->Ok_0->Some_0.cap == tinfo(deps.storage.view())->Some_0.mint->Some_0.cap)
+@prefix
+    broadcast use string_conv;
+@end
+
+// --------------------------------------------------------------------- instantiation (C01, C13)
+pub open spec fn no_balances(s: Raw) -> bool { forall|k: Seq<u8>| s.contains_key(k) ==> unpath(k).0 != "balance"@ }
+pub open spec fn same_outside_balances(s: Raw, t: Raw) -> bool {
+    forall|k: Seq<u8>| unpath(k).0 != "balance"@ ==> raw_opt(s, k) == raw_opt(t, k)
+}
+pub open spec fn distinct_accounts(a: Seq<Cw20Coin>) -> bool {
+    forall|i: int, j: int| 0 <= i < j < a.len() ==> a[i].address@ != a[j].address@
+}
+
+pub proof fn lemma_no_balances_zero(s: Raw)
+    requires no_balances(s)
+    ensures total_bal(s) == 0
+{
+    lemma_sum_zero(s, w_u128("balance"@));
+}
+
+// ASSUMED LEAF (sort + dedup on Vec<&String> is outside Verus' reach): checked by the bounded Kani harness kani/validate_accounts.rs
+@fn contracts/cw20-base/src/contract.rs validate_accounts [assume]
+@ensures C01.validate_accounts_distinct
+    r is Ok ==> distinct_accounts(accounts@)
+@end
+
+@fn contracts/cw20-base/src/contract.rs create_accounts [loops: 1]
+@requires
+    no_balances(old(deps).storage.view())
+@ensures C01.create_sum
+    r is Ok ==> total_bal(final(deps).storage.view()) == r->Ok_0@
+@ensures C01.create_balances
+    r is Ok ==> forall|j: int| 0 <= j < accounts@.len() ==> bal(final(deps).storage.view(), (#[trigger] accounts@[j]).address@) == accounts@[j].amount@
+@ensures C01.create_frame C13 C19
+    same_outside_balances(old(deps).storage.view(), final(deps).storage.view())
+@ensures C01.create_deps_frame
+    final(deps).api == old(deps).api, final(deps).querier == old(deps).querier
+@loop 1 C01.create_loop
+    invariant
+        it.index@ <= accounts@.len(),
+        distinct_accounts(accounts@),
+        total_bal(deps.storage.view()) == total_supply@,
+        forall|k: Seq<u8>| deps.storage.view().contains_key(k) && unpath(k).0 == "balance"@ ==> exists|j: int| 0 <= j < it.index@ && k == bkey(accounts@[j].address@),
+        forall|j: int| 0 <= j < it.index@ ==> bal(deps.storage.view(), (#[trigger] accounts@[j]).address@) == accounts@[j].amount@,
+        same_outside_balances(old(deps).storage.view(), deps.storage.view()),
+        deps.api == old(deps).api, deps.querier == old(deps).querier,
+@prefix
+    broadcast use cw20_axioms;
+    proof { lemma_no_balances_zero(old(deps).storage.view()); }
+@insert_before "BALANCES.save(" 1
+    let ghost pre = deps.storage.view();
+    proof {
+        broadcast use cw20_axioms;
+        assert(!pre.contains_key(bkey(address@))) by {
+            if pre.contains_key(bkey(address@)) {
+                let j = choose|j: int| 0 <= j < it.index@ && bkey(address@) == bkey(accounts@[j].address@);
+                assert(unpath(bkey(address@)) == unpath(bkey(accounts@[j].address@)));
+                assert(unutf8(utf8(address@)) == unutf8(utf8(accounts@[j].address@)));
+            }
+        }
+    }
+@insert_before "total_supply += row.amount" 1
+    proof {
+        broadcast use cw20_axioms;
+        let post = deps.storage.view();
+        assert(post == pre.insert(bkey(address@), row.amount.ser()));
+        assert forall|j: int| 0 <= j < it.index@ implies bal(post, (#[trigger] accounts@[j]).address@) == accounts@[j].amount@ by {
+            assert(unutf8(utf8(address@)) != unutf8(utf8(accounts@[j].address@)));
+            assert(unpath(bkey(accounts@[j].address@)) != unpath(bkey(address@)));
+        }
+        assert forall|k: Seq<u8>| unpath(k).0 != "balance"@ implies raw_opt(old(deps).storage.view(), k) == raw_opt(post, k) by {
+            assert(raw_opt(old(deps).storage.view(), k) == raw_opt(pre, k));
+        }
     }
 @end
